@@ -20,7 +20,9 @@ CLAIMED = {
   text="Lean 4 theorems: every RangeToken operation (addRange, sort/compact, merge, subtract, intersect, complement, match) of a "
        "code-shaped model equals its set operation for all tokens satisfying the stated invariant (unbounded); Brzozowski-derivative matcher "
        "= language semantics for all expressions and strings; XSD quantifier semantics. The real RangeToken is tied by operation-history "
-       "correspondence (judged by set algebra), the real engine by comparison with the proved matcher on all short strings.",
+       "correspondence (judged by set algebra), the real engine by comparison with the proved matcher on all short strings. Long-subject family (257-600 characters around the explicit-stack threshold of the matcher) and a syntax family judged by an independent "
+       "recursive-descent oracle for Datatypes Appendix F (tools/props/c11_xsd.py; self-tested against 34 hand-stated verdicts every run): malformed "
+       "expressions must raise ParseException, well-formed ones are judged by language.",
   note="Trusted: Lean kernel + std axioms; Spec (Matches) as transcribed; Python renderer of regex ASTs to XSD syntax; harness. The backtracking "
        "engine itself, options i/s/m/x, tokenize/replace, category tables are not modelled (correspondence only) - partial.",
   technique="Lean 4 proof (range algebra refinement, derivative matcher) + model/implementation correspondence",
